@@ -43,7 +43,9 @@ PATTERNS = {
     "semver": dict(
         pattern="MAJOR.MINOR[.PATCH]", legacy=False, bump=["--patch"],
         tags=["2.0.1", "2.10", "1.2", "v9.9", "2.10.0", "9.9.9.9", "2.0.2", "latest", "1.5.0", "2.0.1rc1"],
-        configs={"below": "1.1", "between": "2.0.1", "above": "3.0"},
+        # "digits": greater than 2.0.1/2.0.2 as a version, smaller as a string than "2.0.2" is not - but smaller than "2.9"/"1.2"? no:
+        # 2.0.10 vs tag 2.0.2: version order 2.0.10 > 2.0.2, string order "2.0.10" < "2.0.2"
+        configs={"below": "1.1", "between": "2.0.1", "above": "3.0", "digits": "2.0.10"},
     ),
     "date": dict(
         pattern="YYYY.0M.0D", legacy=False, bump=["--date", "2024-05-06"],
@@ -140,7 +142,7 @@ def explore(tier, seed):
     n = 6 if tier == "quick" else 8
     chunks = []
     for name in PATTERNS:
-        for pos in ("below", "between", "above"):
+        for pos in PATTERNS[name]["configs"]:
             for first in itertools.product(PLACES, repeat=2):
                 chunks.append(("place", name, pos, first, n))
         chunks.append(("orders", name, tier))
